@@ -371,7 +371,10 @@ def strategy():
                 if kind == 0 and top:
                     key = top[idx % len(top)]
                 elif kind == 1:
-                    key = fresh[idx % len(fresh)]
+                    # fresh top-level keys, among them names that META fields of this document carry (a bare key is a body
+                    # key whatever META holds)
+                    pool1 = fresh + [k for k in mkeys if k not in top and k not in blocked]
+                    key = pool1[idx % len(pool1)]
                 elif kind == 2:
                     pool = mkeys + ["MNEW"]
                     key = "META." + pool[idx % len(pool)]
